@@ -41,7 +41,7 @@ TRUSTED = {
 
 
 # properties whose claim is deliberately not "proof" even when every obligation is discharged (schedule quantifiers)
-FORCED_LEVEL = {"C19": "other", "C13": "other"}
+FORCED_LEVEL = {"C19": "other", "C13": "other", "C14": "other"}  # properties whose contracts cover only part of the statement
 
 
 def _load_contract_modules() -> None:
